@@ -503,6 +503,13 @@ def play(cands, opt):
 
 # ------------------------------------------------------------------ worker side of the process pool
 def _work(job):
+    try:
+        return _work_(job)
+    except BaseException:
+        return [(("error",), [("driver:error", "a replay worker failed: %s" % traceback.format_exc()[-1500:], None)], 0)], collections.Counter()
+
+
+def _work_(job):
     """job = (worker scratch dir, [task]); task = (case key, cands, opt) -> [(key, violations)], stats"""
     d, tasks = job
     os.makedirs(d, exist_ok=True)
@@ -511,9 +518,10 @@ def _work(job):
         opt = dict(opt, path=os.path.join(d, "envs.zip"))
         if opt.get("sweep"):
             # every byte position of one torn write, both image styles
-            _, _, _, tlen = play(cands, dict(opt, torn=("prefix", 0)))
-            n = 0; v = []
-            for style in ("inplace", "prefix"):
+            v, _, _, tlen = play(cands, dict(opt, torn=("prefix", 0)))
+            n = 0
+            if tlen is not None: v = []
+            for style in (("inplace", "prefix") if tlen is not None else ()):
                 for k in range(0, (tlen or 0) + 1):
                     vv, s, oor, _ = play(cands, dict(opt, torn=(style, k)))
                     if oor: stats["sweep-not-torn"] += 1; continue
@@ -553,14 +561,14 @@ def configs(ctx):
             "NI <- NI3": "NI <- " + ni, "SelfSet <- SelfB": "SelfSet <- " + selfset, "ProcSet <- P1": "ProcSet <- " + procs, "OwSet <- OwBoth": "OwSet <- " + ow,
             "FaultSet <- FAll": "FaultSet <- " + faults, "ExtSet <- ESome": "ExtSet <- " + ext, "MaxCalls = 2": "MaxCalls = %d" % calls}))
     add("p1-wide", "SelfAq" if q else "SelfA", "P1", "FAll", "EAll", 2, required=ACTIONS, sample_modes=dict(same=ctx.pick(0.5, 1.0), chain=ctx.pick(0.2, 1.0)))
-    add("p1-deep", "SelfQ", "P1", "FAll", "ESome", 3, modes=("fresh", "same"), simulate=dict(num=400, depth=60) if q else None, sample_modes=dict(same=0.5))
+    add("p1-deep", "SelfQ", "P1", "FAll", "ESome", 3, modes=("fresh", "same"), simulate=dict(num=400, depth=60) if q else None, sample_modes=dict(same=ctx.pick(0.5, 0.3)))
     add("p1-sink", "SelfSink", "P1", "FCrash", "ESink", 2 if q else 3, modes=("fresh", "same"), sample_modes=dict(fresh=ctx.pick(0.5, 1.0)))
     add("p1-batch", "SelfBatch", "P1", "FCrash", "ENone", 2, ni="NI5", modes=("fresh",) if q else ("fresh", "same"), sample=ctx.pick(250, None))
     add("p2", "SelfQ2" if q else "SelfC", "P2", "FAll", "ESome" if q else "ENone", 2, modes=("fresh", "same"), sample=ctx.pick(220, 5000))
     if not q:
         add("p1-other", "SelfD", "P1", "FAll", "EAll", 2)
         add("p1-long", "SelfQ", "P1", "FAll", "ESome", 4, modes=("fresh", "same"), simulate=dict(num=6000, depth=80))
-        add("p12-deep", "SelfQ2", "P12", "FAll", "ENone", 3, modes=("fresh", "same"), sample=3000)
+        add("p2-deep", "SelfQ2", "P2", "FRead", "ENone", 3, modes=("fresh", "same"), sample=2500)
     return C
 
 
@@ -638,13 +646,14 @@ def run(ctx):
     for i, t in enumerate(tasks): chunks[i % len(chunks)].append(t)
     jobs = [(os.path.join(ctx.scratch, "w%d" % i), ch) for i, ch in enumerate(chunks) if ch]
     stats = collections.Counter()
-    with multiprocessing.get_context("fork").Pool(nproc) as pool:
-        for res, s in pool.imap(_work, jobs):
+    from concurrent.futures import ProcessPoolExecutor
+    with ProcessPoolExecutor(max_workers=nproc, mp_context=multiprocessing.get_context("fork")) as pool:
+        for res, s in pool.map(_work, jobs):
             stats.update(s)
             for key, viols, n in res:
                 if key[0] == "sweep":
                     for i in range(n): ctx.case(("sweep", key[1], i))
-                else:
+                elif key[0] != "error":
                     ctx.case(key)
                 ctx.traces += n
                 for sig, what, rep in viols: ctx.violation(sig, what, rep)
